@@ -110,6 +110,9 @@ def ownraw(run, P):
 def width_call(run, P):
     from rules import r_width
     r_width.run_d(run, P, units=None)
+def width_call64(run, P):
+    from rules import r_width
+    r_width.run_d(run, P, units=None, widths=(8, 16, 32), min_src=64)
 def width_diff(run, P):
     from rules import r_width
     r_width.run_e(run, P)
